@@ -62,6 +62,7 @@ class ParallelAction : public AssembleAction {
     virtual void onPause() override;
     virtual void onResume() override;
     virtual void onReset() override;
+    virtual void onFinished(bool is_succ, const Reason &why, const Trace &trace) override;
 
   private:
     void stopAllActions();
